@@ -11,16 +11,19 @@ M=$WT/mutants; D=$M/m$I.diff
 cd "$WT" || exit 2
 git checkout -q -- . ; rm -f zz_demo*_test.go
 DEMOS=$(ls $M/demo${I}*_test.go 2>/dev/null)
-n=0; for f in $DEMOS; do n=$((n+1)); cp "$f" "zz_demo${I}x${n}_test.go"; done
+PKGDIR=.
+grep -q "^package ztest" $DEMOS 2>/dev/null && PKGDIR=internal/ztest
+rm -f $PKGDIR/zz_demo*_test.go
+n=0; for f in $DEMOS; do n=$((n+1)); cp "$f" "$PKGDIR/zz_demo${I}x${n}_test.go"; done
 ls zz_demo* >/dev/null 2>&1 || { echo "no demo test files"; }
-TAGS=""; grep -lq "VerifSetHooks\|go:build verif" zz_demo*_test.go 2>/dev/null && TAGS="-tags verif"
-RUNRE=$(grep -ho "^func Test[A-Za-z0-9_]*" zz_demo*_test.go | sed 's/func //' | paste -sd'|')
-without=PASS; go test $TAGS -vet=off -count=2 -run "^($RUNRE)\$" . >/tmp/x/demo.without 2>&1 || without=FAIL
+TAGS=""; grep -lq "VerifSetHooks\|go:build verif" $PKGDIR/zz_demo*_test.go 2>/dev/null && TAGS="-tags verif"
+RUNRE=$(grep -ho "^func Test[A-Za-z0-9_]*" $PKGDIR/zz_demo*_test.go | sed 's/func //' | paste -sd'|')
+without=PASS; go test $TAGS -vet=off -count=2 -run "^($RUNRE)\$" ./$PKGDIR >/tmp/x/demo.without 2>&1 || without=FAIL
 git apply "$D" || { echo "patch does not apply"; exit 2; }
 go build ./... && go vet . >/dev/null 2>&1 && GOOS=freebsd go build . && GOOS=windows go build . ; builds=$?
-with=PASS; for k in 1 2 3; do go test $TAGS -vet=off -count=1 -run "^($RUNRE)\$" . >/tmp/x/demo.with 2>&1 || { with=FAIL; break; }; done
-mv zz_demo*_test.go /tmp/x/ 2>/dev/null
-suite=$(go test -vet=off -count=1 . 2>&1 | grep -E "^\s*--- FAIL" | grep -v "TestAdd \|permission_denied\|TestWatchMultipleWrite" | tr -s ' ' | paste -sd';')
+with=PASS; for k in 1 2 3; do go test $TAGS -vet=off -count=1 -run "^($RUNRE)\$" ./$PKGDIR >/tmp/x/demo.with 2>&1 || { with=FAIL; break; }; done
+mv $PKGDIR/zz_demo*_test.go /tmp/x/ 2>/dev/null
+suite=$(go test -vet=off -count=1 . ./internal/... 2>&1 | grep -E "^\s*--- FAIL" | grep -v "TestAdd \|permission_denied\|TestWatchMultipleWrite" | tr -s ' ' | paste -sd';')
 git checkout -q -- .
 echo "[$P m$I] builds=$builds demo-without=$without demo-with=$with suite-unexpected-failures='${suite}'"
 # 2) run my checks against it
